@@ -341,9 +341,55 @@ pub fn run_c14(ctx: &Ctx) -> Report {
         Ok(aux) => merge_aux(&mut rep, &aux, "base"),
         Err(e) => rep.engine_failures.push(e),
     }
+    // the facade configurations: likely-subtags support requested through ONE facade crate only
+    // (`unic-locale/likelysubtags`, `unic-langid/likelysubtags`) must reach the implementation --
+    // the two builds above enable the feature on the implementation crates directly and cannot
+    // see a broken link in the chain facade -> unic-locale-impl -> unic-langid-impl
+    {
+        let dr = load_dirref(&ctx.repo);
+        let t0 = std::time::Instant::now();
+        let mut checked = 0u64;
+        for (fs, with) in [(["locale_likely"], true), (["langid_likely"], true)] {
+            match super::features::facade_directions(ctx, &fs) {
+                Ok(dirs) => {
+                    for (name, lang, script, _region, want) in &dr.locales {
+                        // the transcript prints the canonical text of the identifier
+                        let canon = match name.parse::<LanguageIdentifier>() {
+                            Ok(li) => li.to_string(),
+                            Err(_) => continue,
+                        };
+                        let Some(got) = dirs.get(&canon) else {
+                            rep.engine_failures.push(format!("facade configuration {}: no direction line for {}", fs[0], canon));
+                            continue;
+                        };
+                        checked += 1;
+                        let wants = format!("{:?}", want);
+                        let within_allowance = !with && script.is_none() && dr.multi_dir_langs.contains(lang);
+                        if *got != wants && !within_allowance {
+                            rep.collector.push(checked, Violation {
+                                sub: "c14.facade",
+                                class: format!("facade built with the feature {}: direction differs from CLDR characterOrder", fs[0]),
+                                case: Case::Text(format!("facade:{}:{}", fs[0], name)),
+                                expected: wants,
+                                observed: got.clone(),
+                            });
+                        }
+                    }
+                }
+                Err(e) => rep.engine_failures.push(format!("facade configuration {}: {}", fs[0], e)),
+            }
+        }
+        rep.states += checked;
+        rep.transitions += checked;
+        rep.traces += checked;
+        rep.evaluations += checked;
+        let e = rep.extra.entry("engines".to_string()).or_insert_with(|| json!({}));
+        e["facade:E5.layout_locales"] = json!({"space": {"kind": "every CLDR layout locale through the facade crates built with likely-subtags requested through one facade only (unic-locale/likelysubtags; unic-langid/likelysubtags): the direction must equal CLDR characterOrder", "configurations": 2},
+            "inputs": checked, "wall_s": (t0.elapsed().as_secs_f64() * 100.0).round() / 100.0});
+    }
     #[cfg(feature = "likelysubtags")]
     super::conc::run_family(ctx, "direction", "c14.schedule", &mut rep);
-    rep.rule = "E4, complete, in two builds of the library (with and without the likelysubtags feature): all CLDR layout locales (clauses 1 and 4: equality with characterOrder / differences only within the stated allowance), every (language, script, region) of the CLDR universe plus unknowns (clauses 2 and 3: a listed script decides alone; unlisted/absent script + language never listed RTL => LTR), and a sub-universe x 3 variant lists (variants never matter). Non-trivial = direction other than LTR.".into();
+    rep.rule = "E4, complete, in two builds of the library (with and without the likelysubtags feature): all CLDR layout locales (clauses 1 and 4: equality with characterOrder / differences only within the stated allowance), every (language, script, region) of the CLDR universe plus unknowns (clauses 2 and 3: a listed script decides alone; unlisted/absent script + language never listed RTL => LTR), a sub-universe x 3 variant lists and every real-world variant word on the RTL / multi-direction languages (variants never matter); E5: the layout locales through the facade crates built with likely-subtags requested through one facade only. Non-trivial = direction other than LTR.".into();
     rep.assumptions = vec!["data/cldr-misc-full/main/*/layout.json is the source of truth; 'root' is not an identifier and is skipped".into()];
     rep
 }
